@@ -130,3 +130,232 @@ Proof.
   split; [discriminate|]. split; [vm_compute; reflexivity|]. split; [now left|].
   intros P. apply prefixb_prefix in P. vm_compute in P. discriminate.
 Qed.
+
+(** * The two options inside the validated text model.
+
+    [Model/RunDecor.v: run_shexc_decor fa c dmi mode thr g] is the ShExC text of
+    [Shaper(..., detect_minimal_iri=dmi, examples_mode=mode).shex_graph(string_output=True)]:
+    [run_shapes] (the pipeline model) for the shapes, [Examples.profile_examples] for the
+    per-class data, and the serialiser's decorations added while a shape is printed
+    (compared byte for byte with the real text on every run: harness/vp/pipedecor.py).
+    [run_shexc_decor_lines] is the same text as a list of newline-terminated lines. *)
+From Shexer Require Import Model.Profiler Model.Tokens Model.Freq Model.FreqInst Model.Shexing Model.SerialShexc
+     Model.Run Model.RunDecor Model.DecorDom Spec.DecorSpec Proofs.DecorProofs Proofs.RunWitness.
+
+(** with both options off it is the plain run *)
+Theorem C17_decor_off : forall fa c thr g,
+  run_shexc_decor fa c false None thr g =
+  match run_shexc fa c thr g with inl t => inl t | inr e => inr (DE e) end.
+Proof. exact run_decor_off. Qed.
+Print Assumptions C17_decor_off.
+
+(** ** D1 -- neither option changes any constraint.
+
+    The shapes are computed by [run_shapes], which does not take the two options.  The
+    text printed with the options is: the PREFIX block, then for every shape of
+    [run_shapes], in order, the lines [SerialShexc.shape_lines] prints for a shape [sh']
+    that has the same label, class and instance count and, statement by statement, the
+    same direction, property, value types, cardinality, count and probability
+    ([stmt_core_eq]); the ordinary comments of every statement are intact, and at most one
+    [// rdfs:comment ... ;] comment was inserted before them ([same_structure],
+    [printed_as]: Proofs/DecorProofs.v). *)
+Theorem C17_structure_unchanged : forall fa c dmi mode thr g ls,
+  run_shexc_decor_lines fa c dmi mode thr g = inl ls ->
+  exists ns shapes blocks,
+    run_shapes fa c thr g = inl (ns, shapes) /\
+    ls = prefix_lines ns ++ List.concat blocks /\
+    Forall2 (printed_as (zcfg_of c ns)) shapes blocks.
+Proof. exact run_structure_unchanged. Qed.
+Print Assumptions C17_structure_unchanged.
+
+(** ** D2 -- the text with the options, decorations removed, is the text without them.
+
+    [Spec/DecorSpec.v: strip_decor] works on lines: in a header line the text from
+    ["  [<"] after the label to the next [">~]  AND"] goes, a closing line
+    ["} // rdfs:comment ..."] becomes ["}"], body lines that start (after the comment
+    indentation) with ["// rdfs:comment "] go.  [run_decor_domb] is the computable domain
+    in which those lines can be recognised ([Model/DecorDom.v]: printed labels without
+    blanks, stems without ['>'], printed properties that do not start with a blank --
+    true of IRIs and prefixed names; evaluated on every run of the check).  That no
+    other comment line of the model's text starts with ["// rdfs:comment"] is proved
+    (every ordinary comment is a statement snapshot: Proofs/ShexKeys.v K3). *)
+Theorem C17_text_strip_decor : forall fa c dmi mode thr g ls,
+  run_decor_domb fa c dmi mode thr g = true ->
+  run_shexc_decor_lines fa c dmi mode thr g = inl ls ->
+  run_shexc_lines fa c thr g = inl (strip_decor ls).
+Proof. exact run_text_strip_decor. Qed.
+Print Assumptions C17_text_strip_decor.
+
+Theorem C17_text_strip_decor_text : forall fa c dmi mode thr g ls,
+  run_decor_domb fa c dmi mode thr g = true ->
+  run_shexc_decor_lines fa c dmi mode thr g = inl ls ->
+  run_shexc_decor fa c dmi mode thr g = inl (List.concat ls) /\
+  run_shexc fa c thr g = inl (List.concat (strip_decor ls)).
+Proof. exact run_text_strip_decor_text. Qed.
+Print Assumptions C17_text_strip_decor_text.
+
+(** the domain holds whenever no shape label and no prefix label contains a blank, no
+    namespace is empty, no property starts with a blank (or is empty), and no printed stem
+    contains ['>'] -- and the last clause follows from instance ids without ['>']
+    ([ns_ok], [nospace], [tok_ok], [stem_ok]: Proofs/DecorProofs.v, Model/DecorDom.v) *)
+Theorem C17_strip_domain_sufficient : forall z dc d shapes,
+  ns_ok (z_ns z) ->
+  Forall (fun sh =>
+            nospace (sh_name sh) = true /\
+            Forall (fun s => tok_ok (s_prop s) = true) (sh_stmts sh) /\
+            (d_dmi dc = true -> forall s, shape_stem d (sh_class sh) = Some (Some s) -> stem_ok s = true)) shapes ->
+  decor_domb z dc d shapes = true.
+Proof. exact decor_domb_sufficient. Qed.
+Print Assumptions C17_strip_domain_sufficient.
+
+Theorem C17_strip_domain_stems : forall c mode g ins d cls s,
+  run_decor_data c true mode g = Some (ins, d) ->
+  well_formed_ids (instances_of ins cls) ->
+  (forall i, In i (instances_of ins cls) -> forallb stem_char_ok i = true) ->
+  shape_stem d cls = Some (Some s) -> stem_ok s = true.
+Proof. exact stem_ok_of_instances. Qed.
+Print Assumptions C17_strip_domain_stems.
+
+(** ** D3 -- what is printed comes from the data.
+
+    [run_decor_data c dmi mode g = Some (ins, d)]: [ins] is the tracker's instance
+    dictionary and [d] the example dictionary the serialiser reads.  For a shape whose
+    class has an instance, the header carries [MinIri.stem] of that class's instances
+    (which [C17_stem_longest] / [C17_stem_none] characterise), or nothing. *)
+Theorem C17_printed_stem_is_class_stem : forall c mode g ins d sh,
+  run_decor_data c true mode g = Some (ins, d) ->
+  (exists i, is_instance ins (sh_class sh) i) ->
+  min_iri_text {| d_dmi := true; d_mode := mode; d_inverse := r_inverse c |} d sh =
+  inl (match stem (instances_of ins (sh_class sh)) with
+       | Some s => c17d_stem_pre ++ s ++ c17d_stem_post
+       | None => []
+       end).
+Proof. exact printed_stem_is_class_stem. Qed.
+Print Assumptions C17_printed_stem_is_class_stem.
+
+(** composed with [C17_stem_longest] / [C17_stem_none]: on [C17_dom] the header carries the
+    longest admissible stem of the class's instances, and carries none only if none exists *)
+Theorem C17_printed_stem_longest : forall c mode g ins d sh,
+  run_decor_data c true mode g = Some (ins, d) ->
+  (exists i, is_instance ins (sh_class sh) i) ->
+  C17_dom (instances_of ins (sh_class sh)) ->
+  (exists s, min_iri_text {| d_dmi := true; d_mode := mode; d_inverse := r_inverse c |} d sh =
+             inl (c17d_stem_pre ++ s ++ c17d_stem_post) /\ is_longest s (instances_of ins (sh_class sh))) \/
+  (min_iri_text {| d_dmi := true; d_mode := mode; d_inverse := r_inverse c |} d sh = inl [] /\
+   forall s, ~ admissible s (instances_of ins (sh_class sh))).
+Proof.
+  intros c mode g ins d sh H Hi Hd. rewrite (printed_stem_is_class_stem _ _ _ _ _ _ H Hi).
+  destruct (stem (instances_of ins (sh_class sh))) as [s|] eqn:E.
+  - left. exists s. split; [reflexivity | exact (stem_some _ _ Hd E)].
+  - right. split; [reflexivity | exact (stem_none _ Hd E)].
+Qed.
+Print Assumptions C17_printed_stem_longest.
+
+(** the example printed after the closing brace is an instance of the shape's class
+    (rendered as a prefixed name or between angle brackets) *)
+Theorem C17_printed_example_from_data : forall c dmi mode g ins d z sh ex,
+  run_decor_data c dmi mode g = Some (ins, d) -> z_ns z <> [] ->
+  example_text z {| d_dmi := dmi; d_mode := mode; d_inverse := r_inverse c |} d sh = inl ex ->
+  (in_modes mode c17d_modes_shape_example = false /\ ex = []) \/
+  exists x, is_instance ins (sh_class sh) x /\
+            ex = c17d_inst_pre ++ iri_or_prefixed (z_ns z) x ++ c17d_inst_post.
+Proof. exact printed_example_from_data. Qed.
+Print Assumptions C17_printed_example_from_data.
+
+(** the example comment put first on a constraint shows a value [v] of that property, in
+    that direction, on an instance of the class ([constraint_example_ok], as in
+    [C17_examples_from_data]), rendered by [cons_rendered] = the getter's guess followed
+    by [_turn_str_comment_into_proper_rdf] (dead [count] branch included: C17-F3) *)
+Theorem C17_printed_constraint_example_from_data : forall c dmi mode g ins d z cls cnt s s',
+  run_decor_data c dmi mode g = Some (ins, d) ->
+  decorate_stmt z {| d_dmi := dmi; d_mode := mode; d_inverse := r_inverse c |} d cls cnt s = inl s' ->
+  s_prop s <> z_tau z -> no_raw s = true ->
+  exists v, constraint_example_ok ins g cls (s_prop s) (r_inverse c && s_inv s) v /\
+            s' = add_comment_first s
+                   (KRaw (cons_rendered {| d_dmi := dmi; d_mode := mode; d_inverse := r_inverse c |} (z_ns z) v)).
+Proof. exact printed_cons_example_from_data. Qed.
+Print Assumptions C17_printed_constraint_example_from_data.
+
+(** ** non-vacuity: a whole decorated document, and its stripped form *)
+Definition c17_decor_cfg : rcfg :=
+  {| r_tau := c_RDF_TYPE; r_targets := None; r_ns := [(Str "http://ex.org/", Str "ex")];
+     r_shapes_ns := c_SHAPES_DEFAULT_NAMESPACE; r_cap := (-1)%Z;
+     r_inverse := true; r_remove_empty := true; r_discard_useless := true; r_keep_less_specific := true;
+     r_all_compliant := true; r_disable_or := true; r_allow_redundant_or := false; r_allow_opt := true;
+     r_disable_exact := false; r_disable_comments := false; r_mode := FAbs |}.
+
+Definition unlines (l : list string) : str := List.concat (map (fun s => Str s ++ nl) l).
+
+Example C17_decorated_document :
+  run_shexc_decor BAlg c17_decor_cfg true (Some c_ALL_EXAMPLES) thr0 c17_graph_ex = inl (unlines [
+    "PREFIX ex: <http://ex.org/>";
+    "PREFIX : <http://weso.es/shapes/>";
+    "";
+    ":C  [<http://ex.org/a/>~]  AND   # 2 instances.";
+    "{";
+    "   <http://www.w3.org/1999/02/22-rdf-syntax-ns#type>  [ex:C]  ;          # 2 instances.";
+    "   ex:p  @:C  ?;";
+    "            // rdfs:comment <http://ex.org/a/i2> ;";
+    "            # 1 instance. obj: @:C. Cardinality: {1}";
+    "   ex:q  <http://www.w3.org/2001/XMLSchema#integer>  ?;";
+    "            // rdfs:comment ""5"" ;";
+    "            # 1 instance. obj: <http://www.w3.org/2001/XMLSchema#integer>. Cardinality: {1}";
+    "   ^  ex:p  @:C  ?";
+    "            // rdfs:comment <http://ex.org/a/i1> ;";
+    "            # 1 instance. obj: @:C. Cardinality: {1}";
+    "} // rdfs:comment <http://ex.org/a/i1>";
+    "";
+    ""]%string)
+  /\ run_decor_domb BAlg c17_decor_cfg true (Some c_ALL_EXAMPLES) thr0 c17_graph_ex = true
+  /\ run_shexc BAlg c17_decor_cfg thr0 c17_graph_ex = inl (unlines [
+    "PREFIX ex: <http://ex.org/>";
+    "PREFIX : <http://weso.es/shapes/>";
+    "";
+    ":C   # 2 instances.";
+    "{";
+    "   <http://www.w3.org/1999/02/22-rdf-syntax-ns#type>  [ex:C]  ;          # 2 instances.";
+    "   ex:p  @:C  ?;";
+    "            # 1 instance. obj: @:C. Cardinality: {1}";
+    "   ex:q  <http://www.w3.org/2001/XMLSchema#integer>  ?;";
+    "            # 1 instance. obj: <http://www.w3.org/2001/XMLSchema#integer>. Cardinality: {1}";
+    "   ^  ex:p  @:C  ?";
+    "            # 1 instance. obj: @:C. Cardinality: {1}";
+    "}";
+    "";
+    ""]%string).
+Proof. repeat split; vm_compute; reflexivity. Qed.
+
+(** a direct-mode run in which an IRI value is prefixed by the getter and then quoted by
+    [_turn_str_comment_into_proper_rdf] (C17-F3, reproduced as printed) *)
+Example C17_F3_as_printed :
+  cons_rendered {| d_dmi := false; d_mode := Some c_CONSTRAINT_EXAMPLES; d_inverse := false |}
+                [(Str "http://ex.org/", Str "ex")] (Str "http://ex.org/i2")
+  = Str "// rdfs:comment ""ex:i2"" ;"
+  /\ cons_rendered {| d_dmi := false; d_mode := Some c_CONSTRAINT_EXAMPLES; d_inverse := true |}
+                   [(Str "http://ex.org/", Str "ex")] (Str "http://ex.org/i2")
+     = Str "// rdfs:comment ex:i2 ;"
+  /\ cons_rendered {| d_dmi := false; d_mode := Some c_CONSTRAINT_EXAMPLES; d_inverse := false |}
+                   [(Str "http://ex.org/", Str "ex")] (Str "urn:x:y")
+     = Str "// rdfs:comment ""urn:x:y"" ;".
+Proof. repeat split; vm_compute; reflexivity. Qed.
+
+(** ** C17-F4: with a shape example requested, a printed shape without any instance makes
+    the extraction fail (AttributeError), although the same run without the option
+    succeeds *)
+Definition c17_f4_cfg : rcfg :=
+  {| r_tau := c_RDF_TYPE; r_targets := Some [Str "http://ex.org/C1"; Str "http://ex.org/Cnone"]; r_ns := [];
+     r_shapes_ns := c_SHAPES_DEFAULT_NAMESPACE; r_cap := (-1)%Z;
+     r_inverse := false; r_remove_empty := false; r_discard_useless := true; r_keep_less_specific := true;
+     r_all_compliant := true; r_disable_or := true; r_allow_redundant_or := false; r_allow_opt := true;
+     r_disable_exact := false; r_disable_comments := false; r_mode := FMixed |}.
+
+Definition c17_f4_graph : graph :=
+  [ c17_T "http://ex.org/a/i1" "http://www.w3.org/1999/02/22-rdf-syntax-ns#type" "http://ex.org/C1";
+    T (Node KIri (Str "http://ex.org/a/i1")) (Str "http://ex.org/p1") (OL (Str "abc") (Str "http://www.w3.org/2001/XMLSchema#string")) ].
+
+Lemma C17_F4_refuted :
+  exists c g, (exists t, run_shexc BAlg c thr0 g = inl t) /\
+              run_shexc_decor BAlg c false (Some c_SHAPE_EXAMPLES) thr0 g = inr (DE REAttr).
+Proof.
+  exists c17_f4_cfg, c17_f4_graph. split; [eexists|]; vm_compute; reflexivity.
+Qed.
